@@ -3,15 +3,25 @@ from vlib.runner import Batch
 
 ID = "C16"
 LEAN_PROPS = ["FcpptProofs.Props.C16"]
-HARNESS = {"src": "harness/c16.cpp"}
+import os as _os
+_H = _os.path.join(_os.path.dirname(_os.path.dirname(_os.path.abspath(__file__))), "harness")
+# the per-function evaluation is spread over seven translation units that the runner compiles in parallel; they are given
+# as absolute paths in `repo_srcs` (os.path.join(REPO, <absolute>) is the absolute path itself)
+HARNESS = {"src": "harness/c16.cpp", "repo_srcs": [_os.path.join(_H, f"c16_{p}.cpp") for p in "abcdefg"]}
 TIE = ("hand-written loop-level model (FcpptModel/Model/C16.lean) + differential correspondence against the real templates, "
-       "exhaustive over sequences over {0,1,2} up to length 6 for every function, source kind and parameter table")
+       "exhaustive over sequences over {0,1,2} up to length 6 for every function, source kind and parameter table, with the "
+       "dimensions aliasing (value / key / second container = part of the first argument, every position), value category of every "
+       "argument (probe element with a moved-from marker: result and every source afterwards), reference identity of returned "
+       "references, const / non-const instantiation, static arities, and all short histories of the map / index_map helpers")
 RULE = ("`d fn src params len` = digest over all 3^len sequences of one function/source/parameter table (weight 3^len); "
         "`dsplit`/`djoin`/`dm`/`dset` likewise for strings, string lists, maps and set pairs. Thorough: every predicate (8), value (3), "
         "function table (27), optional table (64), concat table (64), break table (8), relation (512), every applicable source kind "
         "(vector list deque forward_list set map array tuple mpl int_range enum_range), lengths 0..6, strings to length 7. "
         "Quick: the same parameter spaces up to length 5 (large tables sampled per seed), strings to length 5. "
         "Plus seeded samples of longer sequences (7..12), longer strings, sets over 0..9 and index_map histories. "
+        "Extension round: `…at` functions take the value from position i of the container itself; `vc…` functions take every argument as "
+        "const lvalue / lvalue / rvalue over probe elements and print result|sources afterwards; target 4 of `map` logs reserve(); "
+        "`atopt` indices 1000..1005 = 2^31, 2^32, 2^32+1, 2^63, 2^64-1, 2^33+2; `skip` = parameter not applicable to the sequence. "
         "An op is non-trivial unless its sequence/len is empty/0.")
 ASSUMPTIONS = [
     "std::vector/list/deque/forward_list = List; std::set/std::map = strictly sorted (association) list; iterators = positions",
@@ -19,7 +29,8 @@ ASSUMPTIONS = [
     "(remove_if/unique: the tail behind the returned position is an arbitrary `junk` parameter of the model)",
     "std::equal_range/lower_bound/upper_bound: modelled as the libstdc++ bisection loops (so that unsorted inputs correspond as well)",
     "callbacks are the table functions of the driver protocol; captured state is threaded explicitly",
-    "capacity is not observable: reserve only changes `Cont.cap`",
+    "capacity is not observable on std containers: reserve only changes `Cont.cap`, which is compared through a probe target that logs reserve()",
+    "a moved-from probe element is in the marker state 9 (copy leaves the source as it is); moved-from std containers are not inspected",
 ]
 TRUSTED = ["harness/c16.cpp and the digest/line protocol (vh.hpp, Proto.lean)",
            "g++ 12 + ASan/UBSan as witness for memory safety of the instantiations (erase during iteration, references into maps)"]
@@ -62,7 +73,9 @@ def weight(op):
         return max(1, len(enum_tokens(t[2], int(t[-1]))))
     if t[0] == "dsplit":
         return 3 ** int(t[2])
-    if t[0] == "djoin":
+    if t[0] == "dsplitat":
+        return 3 ** int(t[3])
+    if t[0] in ("djoin", "djoinat"):
         return 7 ** int(t[2])
     if t[0] in ("dm", "dset"):
         return 64
@@ -71,7 +84,7 @@ def weight(op):
 
 def nontrivial(op, result):
     t = op.split()
-    if t[0] in ("d", "dsplit"):
+    if t[0] in ("d", "dsplit", "dsplitat"):
         return t[-1] != "0"
     if t[0] in ("s", "split"):
         return t[-1] != "-"
@@ -87,10 +100,16 @@ def refine(op):
         return [f"split {t[1]} {sh(s)}" for s in all_strings("abc", int(t[2]))]
     if t[0] == "djoin":
         return [" ".join(["joinstr", t[1], t[2]] + [sh(p) for p in tu]) for tu in piece_tuples(int(t[2]))]
+    if t[0] == "dsplitat":
+        return [f"splitat {t[1]} {t[2]} {sh(s)}" for s in all_strings("abc", int(t[3]))]
+    if t[0] == "djoinat":
+        return [" ".join(["joinstrat", t[1], t[2]] + [sh(p) for p in tu]) for tu in piece_tuples(int(t[2]))]
     if t[0] == "dm":
         return [" ".join(["m"] + t[1:] + [str(M)]) for M in range(64)]
     if t[0] == "dset":
         ml = lambda m: ",".join(str(i) for i in range(3) if (m >> i) & 1) or "-"
+        if t[1] in "NCnc":
+            return [f"setop {t[1]} {ml(n // 8)} {n % 4}" for n in range(64)]
         return [f"setop {t[1]} {ml(n // 8)} {ml(n % 8)}" for n in range(64)]
     return None
 
@@ -99,13 +118,13 @@ def refine(op):
 def fn_table():
     return [
         # name, param spaces, kinds
-        ("map", [4, 27], RO),
+        ("map", [5, 27], RO),
         ("mapopt", [4, 64], RO),
         ("mapcat", [4, 64], RO),
-        ("fold", [], RO + ["a"]),
+        ("fold", [], RO + ["a", "t", "p"]),
         ("foldbrk", [8], RO),
         ("loopbrk", [8], RO + ["a", "t", "p"]),
-        ("loop", [], RO),
+        ("loop", [], RO + ["a", "t", "p"]),
         ("allof", [8], RO),
         ("containsif", [8], RO),
         ("contains", [3], [k for k in RO if k != "m"]),
@@ -120,21 +139,85 @@ def fn_table():
         ("unique", [], SQ),
         ("uniqueif", [512], SQ),
         ("reverse", [], SQ),
-        ("seqiter", [8], SQ),
-        ("atopt", [9], ["v", "d", "a"]),
+        ("seqiter", [16], SQ),
+        ("atopt", [15], ["v", "d", "a"]),
         ("amap", [27], ["a"]),
         ("apush", [3], ["a"]),
         ("afrom", [5], ["v", "d"]),
         ("tmap", [27], ["t"]),
         ("tpush", [3], ["t"]),
+        # aliasing / references / arities
+        ("removeat", [6], SQ),
+        ("containsat", [6], SQ + ["f", "s"]),
+        ("findoptat", [6], SQ + ["f", "s"]),
+        ("indexofat", [6], ["v", "d", "a"]),
+        ("eqrangeat", [6], SQ + ["s"]),
+        ("bsearchat", [6], SQ + ["s"]),
+        ("apushat", [5], ["a"]),
+        ("aappendself", [], ["a"]),
+        ("ajoinself", [], ["a"]),
+        ("tpushat", [2], ["t"]),
+        ("tconcatself", [], ["t"]),
+        ("loopmut", [9], SQ + ["a"]),
+        ("singular", [7, 7], SQ + ["s"]),
+        ("singularc", [], SQ + ["s", "f"]),
+        ("ajoin1", [], ["a"]),
+        ("ajoin2", [4], ["a"]),
+        ("ajoin4", [16], ["a"]),
+        ("tconcatn", [3, 4], ["t"]),
+        # value categories (probe elements)
+        ("vcmap", [3], SQ + ["a", "t"]),
+        ("vcfold", [3], SQ),
+        ("vcmapopt", [3], SQ),
+        ("vcmapcat", [3], SQ),
+        ("make", [4], ["v"]),
+        ("mvrange", [], SQ),
+        # erase-while-iterating on other associative containers
+        ("mmiter", [8], ["v"]),
+        ("setiter", [8], ["s"]),
+        # remaining helpers of fcppt/algorithm and fcppt/container
+        ("equal", [4, 7], SQ + ["f"]),
+        ("equalself", [], SQ + ["f"]),
+        ("csize", [], RO),
+        ("mfront", [], SQ + ["f"]),
+        ("mback", [], SQ),
+        ("popback", [], SQ),
+        ("popfront", [], ["l", "d", "f"]),
+        ("data", [], ["v", "a"]),
+        ("output", [], SQ + ["f", "s"]),
     ]
+
+# functions whose parameters are not a plain product of ranges starting at 0: (name, list of parameter tuples, kinds)
+def vc_table():
+    cats3 = [0, 1, 2]
+    cats2 = [1, 2]
+    out = []
+    out.append(("vcjoin", [[a, b, c] for a in cats3 for b in cats2 for c in cats2], SQ, "cut2"))
+    out.append(("vcappend", [[a, b] for a in cats3 for b in cats3], ["a"], "cut1"))
+    out.append(("vcpush", [[a, b, v] for a in cats3 for b in cats3 for v in range(3)], ["a"], None))
+    out.append(("vcajoin", [[a, b, c] for a in cats3 for b in cats2 for c in cats2], ["a"], "cut2"))
+    out.append(("vcfrom", [[a, n] for a in cats3 for n in range(4)], ["v", "d"], None))
+    out.append(("vctpush", [[a, b, v] for a in cats3 for b in cats3 for v in range(3)], ["t"], None))
+    out.append(("vctconcat", [[a, b, c] for a in cats2 for b in cats2 for c in cats2], ["t"], "cut2"))
+    return out
+
+
+VC_MAXLEN = {"vcjoin": None, "vcappend": 4, "vcpush": 3, "vcajoin": 3, "vcfrom": 4, "vctpush": 2, "vctconcat": 3}
 
 
 def max_len(k, fn, top):
+    if fn in ("make", "ajoin4"):
+        return 4
+    if fn in ("aappendself", "ajoinself"):
+        return 3
+    if fn == "tpushat":
+        return 2
+    if fn == "vcmap" and k in ("a", "t"):
+        return 3
     if k == "t":
         return 2 if fn == "tpush" else 3
     if k == "p":
-        return 2
+        return 3
     if k in ("i", "e"):
         return 3
     if fn == "apush":
@@ -174,8 +257,11 @@ def batches(rng, tier):
                 continue
             pts = param_tuples(spaces, r, limit)
             if fn in ("map", "mapopt", "mapcat") and not thorough:
-                # every target container, sampled tables
-                pts = [[t] + p for t in range(4) for p in param_tuples(spaces[1:], r, 8)]
+                # every target container (map: + the probe target that logs reserve()), sampled tables
+                pts = [[t] + p for t in range(spaces[0]) for p in param_tuples(spaces[1:], r, 8)]
+            if fn == "atopt":
+                # indices 0..8 and six indices that differ from small ones only in the high bits (coded 1000..1005)
+                pts = [[i] for i in range(9)] + [[1000 + i] for i in range(6)]
             for ps in pts:
                 for ln in range(0, max_len(k, fn, top) + 1):
                     ops.append(" ".join(["d", fn, k] + [str(p) for p in ps] + [str(ln)]))
@@ -184,16 +270,19 @@ def batches(rng, tier):
     # map over array / mpl sources (vector target only)
     ops = []
     for F in (range(27) if thorough else [0, 5, 13, 21, 26]):
-        for ln in range(0, top + 1):
-            ops.append(f"d map a 0 {F} {ln}")
-        for ln in range(0, 3):
-            ops.append(f"d map p 0 {F} {ln}")
+        for t in (0, 4):
+            for ln in range(0, top + 1):
+                ops.append(f"d map a {t} {F} {ln}")
+            for ln in range(0, 4):
+                ops.append(f"d map p {t} {F} {ln}")
     yield Batch("exh-map-array-mpl", ops, exhaustive=thorough, note="algorithm::map from fcppt::array and mpl::list sources")
     # functions with cut positions: join, aappend, ajoin, tconcat
     ops = []
     for k in SQ + ["s"]:
         for ln in range(0, top + 1):
             ops.append(f"d join {k} 1 0 0 {ln}")
+            ops.append(f"d join {k} 4 0 0 {ln}")
+            ops.append(f"d join {k} 5 0 0 {ln}")
             for c1 in range(0, ln + 1):
                 ops.append(f"d join {k} 2 {c1} {c1} {ln}")
                 for c2 in range(c1, ln + 1):
@@ -210,23 +299,73 @@ def batches(rng, tier):
             for c2 in range(c1, ln + 1):
                 ops.append(f"d tconcat t {c1} {c2} {ln}")
     yield Batch("exh-join-append-concat", ops, exhaustive=True, note="container::join (1-3 arguments, lvalue and rvalue), array::append/join, tuple::concat: all cut positions")
+    # value categories of every argument (probe elements, 9 = moved-from)
+    ops = []
+    for fn, pts, kinds, cut in vc_table():
+        for k in kinds:
+            mx = VC_MAXLEN[fn]
+            mx = min(top, 5) if mx is None else mx
+            for ps in pts:
+                for ln in range(0, mx + 1):
+                    if cut is None:
+                        cuts = [[]]
+                    elif cut == "cut1":
+                        cuts = [[c1] for c1 in range(0, ln + 1)]
+                    else:
+                        cuts = [[c1, c2] for c1 in range(0, ln + 1) for c2 in range(c1, ln + 1)]
+                    if fn == "vcjoin" and not thorough:
+                        # all cut positions for lengths <= 3, the extreme cuts beyond
+                        cuts = [c for c in cuts if ln <= 3 or c[0] in (0, ln) or c[1] in (c[0], ln)]
+                    for c in cuts:
+                        ops.append(" ".join(["d", fn, k] + [str(p) for p in ps + c] + [str(ln)]))
+    yield Batch("exh-value-categories", ops, exhaustive=thorough,
+                note="container::join, array::append/push_back/join/from_range, tuple::push_back/concat: const lvalue / lvalue / rvalue for every argument, all cut positions; result and every source afterwards")
     # strings
     ops = [f"dsplit {K} {ln}" for K in "sv" for ln in range(0, (7 if thorough else 5) + 1)]
     for D in ["-", "c", "cc", "ab"]:
         for n in range(0, (4 if thorough else 3) + 1):
             ops.append(f"djoin {D} {n}")
     yield Batch("exh-strings", ops, exhaustive=True, note="split_string over {a,b,c}* (c = delimiter) incl. join_strings round trip; join_strings of up to 4 pieces of length <= 2")
+    ops = []
+    for ln in range(0, (7 if thorough else 5) + 1):
+        for I in range(0, max(ln, 1)):
+            ops += [f"dsplitat {K} {I} {ln}" for K in "sv"]
+    for n in range(0, (4 if thorough else 3) + 1):
+        ops += [f"djoinat {I} {n}" for I in range(0, max(n, 1))]
+    yield Batch("exh-strings-aliased", ops, exhaustive=True,
+                note="split_string(s, s[i]) and join_strings(r, r[i]): the delimiter is an element of the argument, every position i")
+    # bisection beyond the exhaustive lengths: every sorted sequence over {0,1,2} up to length 16 (24)
+    ops = []
+    nmax = 24 if thorough else 16
+    for n in range(7, nmax + 1):
+        for c0 in range(n + 1):
+            for c1 in range(n - c0 + 1):
+                tok = "0" * c0 + "1" * c1 + "2" * (n - c0 - c1)
+                for V in range(3):
+                    k = "vlds"[(c0 + c1 + V) % 4] if not thorough else None
+                    for kk in ([k] if k else list("vlds")):
+                        ops.append(f"s eqrange {kk} {V} {tok}")
+                        ops.append(f"s bsearch {kk} {V} {tok}")
+    yield Batch("sorted-long", ops, exhaustive=True,
+                note=f"equal_range / binary_search on every sorted sequence over {{0,1,2}} of length 7..{nmax} (all run-length triples), every value")
     # maps and sets
     ops = []
     for K in range(3):
         ops += [f"dm findmapped {K}", f"dm getorins {K}"]
     ops += ["dm keyset", "dm mapvals"]
     ops += [f"dm mapiter {R}" for R in range(64)] + [f"dm mapiter2 {R}" for R in range(8)]
-    ops += [f"dset {o}" for o in "UID"]
+    for K in range(4):
+        ops += [f"dm contains {K}", f"dm findopt {K}", f"dm findit {K}"]
+    ops += [f"dm insert {KV}" for KV in range(12)]
+    ops += [f"dm valsref {D}" for D in range(3)]
+    for J in range(3):
+        ops += [f"dm {f} {J}" for f in ("getorinsat", "getorinsatv", "findmappedat", "containsat", "insertat")]
+    ops += [f"dset {o}" for o in "UIDuidNCnc"]
     yield Batch("exh-maps-sets", ops, exhaustive=True, note="all 64 maps {0,1,2}->{0,1,2} x keys / remove tables; all pairs of subsets of {0,1,2}")
     # scalars
     ops = [f"repeat {c}" for c in list(range(-3, 12)) + [100, 1000, -1000]]
-    ops += [f"genn {t} {n}" for t in "vld" for n in list(range(0, 10)) + [33, 64]]
+    ops += [f"genn {t} {n}" for t in "vldr" for n in list(range(0, 10)) + [33, 64]]
+    ops += [f"dyn {n}" for n in list(range(0, 10)) + [33, 64]]
     ops += [f"ainit {n}" for n in range(7)]
     yield Batch("scalars", ops, exhaustive=True, note="repeat (signed, unsigned), generate_n, array::init call order")
 
@@ -234,7 +373,8 @@ def batches(rng, tier):
     r = rng.fork("long")
     cnt = 6000 if thorough else 1200
     ops = []
-    tab = [f for f in fn_table() if f[0] not in ("amap", "apush", "tmap", "tpush", "afrom")]
+    tab = [f for f in fn_table() if f[0] not in ("amap", "apush", "tmap", "tpush", "afrom", "make")
+           and any(x not in ("a", "t", "p", "i", "e") for x in f[2])]
     for _ in range(cnt):
         fn, spaces, kinds = r.choice(tab)
         k = r.choice([x for x in kinds if x not in ("a", "t", "p", "i", "e")])
@@ -251,7 +391,12 @@ def batches(rng, tier):
             xs = [r.below(3) for _ in range(ln)]
         ps = [r.below(s) for s in spaces]
         if fn == "atopt":
-            ps = [r.choice([0, 1, ln - 1, ln, ln + 1, 99999999])]
+            ps = [r.choice([0, 1, ln - 1, ln, ln + 1, 999, 1000, 1001, 1002, 1003, 1004, 1005])]
+        if fn == "singular":
+            i = r.range(0, ln)
+            ps = [i, r.choice([i, min(i + 1, ln), r.range(i, ln)])]
+        if fn == "equal":
+            ps = [ps[0], r.choice([ln // 2, ln // 2, r.range(0, ln)])]
         ops.append(" ".join(["s", fn, k] + [str(p) for p in ps] + ["".join(map(str, xs))]))
     yield Batch("sampled-long", ops, note="sequences of length 7..12 (sorted / runs / random), all functions")
 
@@ -283,6 +428,36 @@ def batches(rng, tier):
             ops.append(f"{r.choice(['imget', 'imget', 'imidx'])} {r.choice([0, 1, 2, 3, 5, 8, r.below(20)])}")
     yield Batch("index-map-histories", ops, kind="history", note="index_map::get / operator[] histories (growth by repeated insert())")
 
+    # every history of up to 3 steps over a small alphabet (index_map), up to 3 (quick) / 4 (thorough) steps (std::map helpers)
+    def words(alpha, n):
+        ws = [[]]
+        out = []
+        for _ in range(n):
+            ws = [w + [a] for w in ws for a in alpha]
+            out += ws
+        return out
+    ops = []
+    for w in words([f"{o} {i}" for o in ("imget", "imidx") for i in (0, 1, 2, 4)], 3):
+        ops += ["reset"] + w
+    yield Batch("index-map-all-short-histories", ops, kind="history", exhaustive=True,
+                note="all get / operator[] histories of length <= 3 over the indices 0 1 2 4 (growth, no growth, old elements kept)")
+    alpha = ["hgoi 0", "hgoi 1", "hgoi 2", "hins 1 2", "hins 0 0", "hset 1 1", "hiter 1", "hiter 6", "hfind 1", "hcont 0"]
+    ops = []
+    for w in words(alpha, 4 if thorough else 3):
+        ops += ["reset"] + w
+    yield Batch("map-all-short-histories", ops, kind="history", exhaustive=True,
+                note="get_or_insert(_with_result) / insert / assignment through the returned reference / map_iteration_second / "
+                     "find_opt_mapped / contains: all histories up to length 3 (4) — find after insert, insert after erase, second lookup of the same key")
+    r = rng.fork("maphist")
+    ops = []
+    for _ in range(300 if thorough else 60):
+        ops.append("reset")
+        for _ in range(r.range(4, 14)):
+            o = r.below(7)
+            K = r.below(4)
+            ops.append([f"hgoi {K}", f"hins {K} {r.below(3)}", f"hset {K} {r.below(3)}", f"hiter {r.below(8)}", f"hfind {K}", f"hcont {K}", f"hgoi {K}"][o])
+    yield Batch("map-histories", ops, kind="history", note="longer random histories of the std::map helpers")
+
 
 MANIFEST = {
     "level_text": ("Machine-checked proof (Lean 4) over an executable model that mirrors each helper's loop (loop_break with early return, "
@@ -290,8 +465,12 @@ MANIFEST = {
                    "index_map growth, array::init index recursion): for all lists, tables and states the model equals the one-line List "
                    "specification (map, filterMap, flatMap, foldl, find?, idxOf?, filter, eraseReps, reverse, splitOn, intercalate, ...), visits "
                    "elements in order and stops at the documented element; join_strings inverts split_string; binary_search on sorted input "
-                   "finds the unique equivalent element. The model is tied to the code by a differential correspondence that is exhaustive over "
-                   "all sequences over {0,1,2} up to length 6 for every function, container kind and parameter table."),
+                   "finds the unique equivalent element and on arbitrary input terminates in bounds and only ever returns an equivalent element; "
+                   "lvalue sources are left untouched and rvalue sources are consumed element by element (map, container::join, array and tuple "
+                   "helpers, make, move_range); the remaining helpers of fcppt/algorithm and fcppt/container (equal, find_opt(_iterator), contains, "
+                   "insert, maybe_front/back, pop_front/back, size, data(_end), dynamic_array, output) equal their List specifications. "
+                   "The model is tied to the code by a differential correspondence that is exhaustive over all sequences over {0,1,2} up to "
+                   "length 6 for every function, container kind, parameter table, aliasing position and value category."),
     "level_note": ("Trusted: Lean kernel + propext/Classical.choice/Quot.sound; std algorithms/containers modelled by their specifications; "
                    "fidelity of the hand-written model outside the exercised inputs; harness and digest protocol. No sorry/axiom/native_decide."),
     "technique": "Lean 4 proof over hand-written executable model + exhaustive differential correspondence (ASan/UBSan harness)",
